@@ -1,6 +1,7 @@
 import FeedVerif.Model.DictDriver
 import FeedVerif.Model.UriDriver
 import FeedVerif.Model.OptionsDriver
+import FeedVerif.Model.BaseDriver
 /-!
 Model driver: one operation per input line `<model> <op> <fields…>`, one canonical output line per
 operation.  Run with `lake env lean --run Main.lean`.
@@ -9,12 +10,14 @@ open FeedVerif
 
 structure DState where
   dict : Dict.Store := []
+  base : Base.St := ⟨"", none, [], []⟩
 
 def stepLine (st : DState) (line : String) : DState × String :=
   match (line.trimAscii.toString.splitOn " ").filter (· ≠ "") with
   | "dict" :: rest => let (s, o) := Dict.driverStep st.dict rest; ({ st with dict := s }, o)
   | "uri" :: rest => (st, Uri.driverStep rest)
   | "opts" :: rest => (st, Options.driverStep rest)
+  | "base" :: rest => let (s, o) := Base.driverStep st.base rest; ({ st with base := s }, o)
   | _ => (st, "bad-model")
 
 partial def loop (h : IO.FS.Stream) (out : IO.FS.Stream) (st : DState) : IO Unit := do
